@@ -329,13 +329,14 @@ static void hx_register_callbacks(htp_cfg_t *cfg);
 static struct { hx_cfgspec spec; htp_cfg_t *cfg; } cfg_cache[HX_MAXCFG];
 static int cfg_cache_n = 0;
 
-/* directory for extracted multipart files: $HX_TMPDIR or a per-process directory under the working directory (never /tmp) */
+/* directory for extracted multipart files: a per-process directory under $HX_TMPDIR or the working directory (never /tmp) */
 static int hx_extract_created; int hx_extract_leftovers(void);
 const char *hx_extract_dir(void) {
     static char dir[256];
     if (!dir[0]) {
+        /* always a directory of this process alone: the leftover check must not see (or delete) the files of a sibling worker */
         const char *d = getenv("HX_TMPDIR");
-        if (d) snprintf(dir, sizeof dir, "%s", d); else { snprintf(dir, sizeof dir, "hx-extract-%d", (int) getpid()); mkdir(dir, 0700); hx_extract_created = 1; }
+        snprintf(dir, sizeof dir, "%s%shx-extract-%d", d ? d : "", d ? "/" : "", (int) getpid()); mkdir(dir, 0700); hx_extract_created = 1;
     }
     return dir;
 }
